@@ -26,6 +26,9 @@ use std::collections::{BTreeMap, BTreeSet};
 use std::path::{Path, PathBuf};
 use std::time::Duration;
 
+#[path = "c17/targeted.rs"]
+mod targeted;
+
 type Files = Vec<(String, String)>;
 
 const CONFIG: &str = "graphql.config.yaml";
@@ -69,6 +72,14 @@ fn gen_spec(rng: &mut Rng, idx: usize) -> Spec {
     } else {
         schema.doc.items.clone()
     };
+    // generator bias: a cluster with two interfaces sharing only the LATER implementer and a union whose first member
+    // does not match (order dependence of "first match" instead of "any match"), plus an operation file that uses it
+    let mut items = items;
+    let biased = idx % 2 == 1 || rng.chance(1, 3);
+    if biased {
+        features.insert("bias:first-vs-any-cluster".to_string());
+        items.extend(sdl_items(&targeted::bias_cluster_sdl(&schema.query)));
+    }
     let nfiles = 2 + rng.below(3);
     let mut schema_files: Vec<(String, Vec<TsItem>)> = (0..nfiles).map(|i| (schema_file_name(i), vec![])).collect();
     for it in items {
@@ -87,12 +98,21 @@ fn gen_spec(rng: &mut Rng, idx: usize) -> Spec {
         }
         op_files.push((format!("ops/q{k}.graphql"), doc_text(&doc)));
     }
+    if biased {
+        op_files.push(("ops/qz_c17.graphql".to_string(), targeted::BIAS_OPS.to_string()));
+    }
     let cfg = gen_project_cfg(rng, &schema, idx % 3 != 1);
     features.insert(format!("mode:{}", cfg.mode));
     if idx % 3 != 1 {
         features.insert("scalar-name-clash-possible".into());
     }
     Spec { schema, schema_files, op_files, cfg, features }
+}
+
+/// the items of an SDL text, through the REAL parser
+fn sdl_items(sdl: &str) -> Vec<TsItem> {
+    let doc = nitrogql_parser::parse_type_system_document(sdl).unwrap_or_else(|e| panic!("harness SDL does not parse: {e:?}\n{sdl}"));
+    from_real_tsdoc_ext(&doc).items
 }
 
 fn spec_files(s: &Spec) -> Files {
@@ -508,6 +528,88 @@ impl<'a> Ctx<'a> {
                 schema_files, op_files, cfg: spec.cfg.clone(), features: BTreeSet::new() };
             let b = spec_files(&permuted);
             self.perm_compare(how, base_files, &b, &opmap, Some(base), false);
+        }
+    }
+
+    // -----------------------------------------------------------------------------------------
+    // (c') targeted projects: every order of ≤ 6 definitions, single- and multi-file
+
+    fn targeted_project(&mut self, rng: &mut Rng, t: &targeted::Targeted, max_orders: usize, multi: usize) -> RunOut {
+        let layout = |order: &[usize], cuts: &[usize], names: &[String]| -> Files {
+            let mut files: Files = vec![];
+            let mut start = 0;
+            for (k, cut) in cuts.iter().chain(std::iter::once(&order.len())).enumerate() {
+                let text: String = order[start..*cut].iter().map(|i| format!("{}\n", t.defs[*i])).collect();
+                if !text.is_empty() {
+                    files.push((names[k].clone(), text));
+                }
+                start = *cut;
+            }
+            files.push(("ops/q.graphql".to_string(), t.ops.to_string()));
+            files.push((CONFIG.to_string(), targeted::TARGETED_CONFIG.to_string()));
+            files
+        };
+        let n = t.defs.len();
+        let mut orders = targeted::all_orders(n);
+        let identity = orders.remove(0);
+        if orders.len() > max_orders {
+            rng.shuffle(&mut orders);
+            // keep the reverse order in any case
+            let rev: Vec<usize> = (0..n).rev().collect();
+            orders.truncate(max_orders);
+            if !orders.contains(&rev) {
+                orders.push(rev);
+            }
+        }
+        let single = vec!["schema/schema.graphql".to_string()];
+        let base_files = layout(&identity, &[], &single);
+        let base = self.run_once(&base_files, "generate");
+        self.rep.evaluations += 1;
+        let opmap = vec![("ops/q.graphql".to_string(), "ops/q.graphql".to_string())];
+        let how = format!("all-orders:{}", t.name);
+        let mut accepted = if base.code == Some(0) { 1 } else { 0 };
+        for o in &orders {
+            let files = layout(o, &[], &single);
+            let before = self.rep.failures.len();
+            self.perm_compare(&how, &base_files, &files, &opmap, Some(&base), false);
+            if self.rep.failures.len() == before && base.code == Some(0) {
+                accepted += 1;
+            }
+        }
+        // multi-file: random orders cut into 2-3 files with random names (glob order = sorted names)
+        let how_multi = format!("all-orders-multi-file:{}", t.name);
+        for _ in 0..multi {
+            let mut o = identity.clone();
+            rng.shuffle(&mut o);
+            let mut cuts: Vec<usize> = (0..1 + rng.below(2)).map(|_| 1 + rng.below(n - 1)).collect();
+            cuts.sort();
+            cuts.dedup();
+            let mut names: Vec<String> = (0..3).map(|i| format!("schema/{}{}.graphql", ["z", "a", "m", "k"][rng.below(4)], i)).collect();
+            rng.shuffle(&mut names);
+            let files = layout(&o, &cuts, &names);
+            self.perm_compare(&how_multi, &base_files, &files, &opmap, Some(&base), false);
+        }
+        if accepted == 0 {
+            self.rep.fail("O", &format!("targeted:{}:rejected-in-every-order", t.name), &format!("a valid project is rejected: {}", base.stdout.chars().take(400).collect::<String>()),
+                json!({"kind": "repeat", "cmd": "generate", "runs": 1, "expect_ok": true, "files": files_json(&base_files)}));
+        }
+        self.rep.nontrivial(&format!("targeted|{}", t.name));
+        self.rep.count_n(&format!("targeted-orders:{}", t.name), orders.len() as u64 + multi as u64);
+        base
+    }
+
+    // -----------------------------------------------------------------------------------------
+    // (a') schema given as an introspection JSON that omits built-in scalars
+
+    fn introspection_project(&mut self, label: &str, json_text: String, ops: Vec<(String, String)>, scalars_yaml: &str, runs: usize, expect_ok: Option<bool>) {
+        let mut files: Files = vec![("schema.json".to_string(), json_text)];
+        files.extend(ops);
+        files.push((CONFIG.to_string(), format!(
+            "schema: \"schema.json\"\ndocuments: \"ops/*.graphql\"\nextensions:\n  nitrogql:\n    generate:\n      schemaOutput: \"gen/schema.d.ts\"\n      resolversOutput: \"gen/resolvers.d.ts\"\n      serverGraphqlOutput: \"gen/server-schema.ts\"\n{scalars_yaml}")));
+        let first = self.repeat(&files, "generate", runs, expect_ok);
+        self.rep.count(&format!("introspection-project:{label}:{}", if first.code == Some(0) { "generated" } else { "rejected" }));
+        if first.code == Some(0) {
+            self.rep.nontrivial(&format!("{files:?}"));
         }
     }
 
@@ -1043,6 +1145,52 @@ fn main() {
                     ctx.perm_compare("rename-files", &faulty, &renamed, &[], Some(&base), true);
                 }
             }
+        }
+    }
+
+    if have_cli {
+        // (c') targeted first-match-vs-any-match projects, all orders of their definitions
+        let mut bases: Vec<(usize, RunOut, Files)> = vec![];
+        for (i, t) in targeted::TARGETED.iter().enumerate() {
+            let cap = if t.defs.len() <= 5 { args.budget(119, 119) } else { args.budget(60, 719) };
+            let base = ctx.targeted_project(&mut rng, t, cap, args.budget(10, 40));
+            let files: Files = vec![("schema/schema.graphql".to_string(), t.defs.iter().map(|d| format!("{d}\n")).collect()), ("ops/q.graphql".to_string(), t.ops.to_string()), (CONFIG.to_string(), targeted::TARGETED_CONFIG.to_string())];
+            bases.push((i, base, files));
+        }
+        // the two member orders of the same union
+        let find = |n: &str| bases.iter().find(|(i, _, _)| targeted::TARGETED[*i].name == n);
+        if let (Some(a), Some(b)) = (find("iface-in-union"), find("iface-in-union-rev")) {
+            let (fa, fb, ra) = (a.2.clone(), b.2.clone(), RunOut { code: a.1.code, stdout: a.1.stdout.clone(), stderr: a.1.stderr.clone(), files: a.1.files.clone() });
+            ctx.perm_compare("union-member-order", &fa, &fb, &[("ops/q.graphql".to_string(), "ops/q.graphql".to_string())], Some(&ra), false);
+        }
+
+        // (a') introspection-JSON schemas that omit several built-in scalars
+        let hand: [(&str, &str, &str, &str); 3] = [
+            ("string-boolean-only", "type Query { me: User! }\ntype User { name: String! active: Boolean! }\n", "query Me { me { name active } }\n", ""),
+            ("custom-scalar-enum-interface", "type Query { node: Node! when: Date }\ninterface Node { label: String! }\ntype Doc implements Node { label: String! kind: Kind! }\nenum Kind { A B }\nscalar Date\n",
+             "query N { node { label ... on Doc { kind } } when }\n", "      type:\n        scalarTypes:\n          Date: \"string\"\n"),
+            ("no-builtin-listed", "type Query { me: User! }\ntype User { name: String! }\n", "query Me { me { name } }\n", ""),
+        ];
+        for (label, sdl, ops, scalars) in hand {
+            let types: Vec<TypeDef> = sdl_items(sdl).into_iter().filter_map(|i| match i { TsItem::TypeDef(t) => Some(t), _ => None }).collect();
+            let listed: Vec<&str> = if label == "no-builtin-listed" { vec![] } else { targeted::referenced_builtins(&types, &[]) };
+            let text = targeted::introspection_text(&types, &[], "Query", None, None, &listed);
+            ctx.rep.count(&format!("introspection:builtin-scalars-omitted:{}", 5 - listed.len()));
+            ctx.introspection_project(label, text, vec![("ops/q.graphql".to_string(), ops.to_string())], scalars, runs, Some(true));
+        }
+        for k in 0..args.budget(2, 6) {
+            let gcfg = GenCfg { hostile_text: false, ..GenCfg::default() };
+            let schema = gen_schema(&mut rng, &gcfg);
+            let types: Vec<TypeDef> = schema.types().cloned().collect();
+            let dirs: Vec<DirectiveDef> = schema.directive_defs().cloned().collect();
+            let listed = targeted::referenced_builtins(&types, &dirs);
+            ctx.rep.count(&format!("introspection:builtin-scalars-omitted:{}", 5 - listed.len()));
+            let text = targeted::introspection_text(&types, &dirs, &schema.query, schema.mutation.as_deref(), schema.subscription.as_deref(), &listed);
+            let (doc, _) = gen_doc(&mut rng, &schema, &gcfg);
+            let pc = gen_project_cfg(&mut rng, &schema, false);
+            let yaml = pc.yaml("x", "y", &[]);
+            let scalars = yaml.find("      type:\n").map(|i| yaml[i..].to_string()).unwrap_or_default();
+            ctx.introspection_project(&format!("generated{k}"), text, vec![("ops/q.graphql".to_string(), doc_text(&doc))], &scalars, runs, None);
         }
     }
 
